@@ -50,6 +50,11 @@ def t_build(E):
     E.prove("C19.Mask.maybe_mask.shape", E.And(
         E.Implies(z3.And(f.conc, f.t), kind == "raw"), E.Implies(z3.And(f.conc, z3.Not(f.t)), kind == "none"),
         E.Implies(z3.Not(f.conc), kind == "mask")))
+    # maybe_mask of a value that already is a mask: both flags count, whatever their concreteness
+    mmn = E.call(MASK + ".maybe_mask", inner, f)
+    E.prove("C19.Mask.maybe_mask.of_a_mask.flags_are_anded", same_obs(E, mmn, z3.And(f.t, g.t), a))
+    E.prove("C19.Mask.maybe_mask.of_a_mask.no_nested_mask",
+            not (isinstance(mmn, Obj) and mmn.cls.name == "Mask" and isinstance(mmn.fields["value"], Obj) and mmn.fields["value"].cls.name == "Mask"))
     fl = E.method(inner, "flatten")
     E.prove("C19.Mask.flatten.obs", same_obs(E, fl, g.t, a))
     E.refutable("mask.algebra.build", same_obs(E, m2, f.t, a))
@@ -110,3 +115,24 @@ def t_nary(E):
     exactly_one = z3.PbEq([(fa, 1), (fb, 1), (fc, 1)], 1)
     E.prove("C19.Mask.xor_n.exactly_one_value", E.Implies(exactly_one, same_obs(
         E, x, z3.BoolVal(True), SReal(z3.If(fa, va, z3.If(fb, vb, vc))))))
+
+
+@task("bounded.mask.nonfinite_payloads", props=["C19"], functions=FUNCS, kind="bounded")
+def t_bounded_nonfinite(_E):
+    """BOUNDED stand-in (not a proof): the Mask operations on non-finite payloads and defaults (nan, +-inf) - the obligations
+    above treat machine arithmetic as real arithmetic, where `flag*value + (1-flag)*default` and a selection coincide - on the
+    real class, eager / jit / vmap, Python-bool, traced and vector flags (replay/bounded_c19_mask.py states the exact bounds)"""
+    import json
+    import os
+    import subprocess
+    root = os.path.dirname(os.path.dirname(os.path.abspath(__file__)))
+    repo = os.environ.get("VERIF_REPO", "/repo")
+    try:
+        p = subprocess.run(["/venv/bin/python", os.path.join(root, "replay", "bounded_c19_mask.py")], capture_output=True, text=True,
+                           timeout=3000, cwd="/var/tmp", env=dict(os.environ, PYTHONPATH=os.path.join(repo, "src"), JAX_PLATFORMS="cpu"))
+        line = [l for l in p.stdout.splitlines() if l.startswith("{")]
+        if not line:
+            return {"error": "no result: " + (p.stderr or p.stdout)[-1500:], "violations": [], "evaluations": 0}
+        return json.loads(line[-1])
+    except Exception as e:      # noqa
+        return {"error": f"{type(e).__name__}: {e}", "violations": [], "evaluations": 0}
